@@ -196,12 +196,41 @@ class Facts:
             for i, t in self.calls(b):
                 yield b, i, t
 
+    def is_unknown_helper(self, body):
+        """A crate function that does not exist on the reference tree (see rules/known_fns.txt), or a closure of one."""
+        known = getattr(self, 'known', None)
+        if not known:
+            return False
+        if body.kind == 'Closure':
+            return body.parent is not None and body.parent not in known
+        return body.nname not in known
+
     def callers_of(self, pred):
-        """All (body, block, term) whose declared or resolved callee satisfies pred(nname)."""
-        out = []
+        """All (body, block, term) whose declared or resolved callee satisfies pred(nname).
+        A call site inside an unknown helper is attributed to the known functions that (transitively) call the
+        helper: (known caller, block of its call into the helper chain, the original terminator)."""
+        raw = []
         for b, i, t in self.all_calls():
             if pred(strip_generics(t['res'])) or pred(strip_generics(t['decl'])):
+                raw.append((b, i, t))
+        out = []
+        for b, i, t in raw:
+            if not self.is_unknown_helper(b):
                 out.append((b, i, t))
+                continue
+            seen = set()
+            work = [b.parent if b.kind == 'Closure' else b.nname]
+            while work:
+                h = work.pop()
+                if h in seen:
+                    continue
+                seen.add(h)
+                for kb, ki, kt in self.all_calls():
+                    if strip_generics(kt['res']) == h:
+                        if self.is_unknown_helper(kb):
+                            work.append(kb.parent if kb.kind == 'Closure' else kb.nname)
+                        else:
+                            out.append((kb, ki, t))
         return out
 
 
